@@ -1,1 +1,956 @@
-fn main() {}
+//! storesim — C29: the cache store behaves like a versioned key-value map.
+//!
+//! Real `veryl_cache::Store` on a scratch directory, driven by seeded operation
+//! sequences and compared operation by operation with a small sequential
+//! reference model. Crash points inside every operation are enumerated through
+//! the `veryl_path::sim` gates (thread-local handler, unwinding crash that
+//! leaves the temp file behind); I/O errors are injected at the same gates in a
+//! separate configuration.
+
+use serde::{Deserialize, Serialize};
+use serde_json::json;
+use simcore::evidence::{Counters, Evidence};
+use simcore::fsutil::Scratch;
+use simcore::rng::{mix, verif_seed, Rng};
+use std::cell::RefCell;
+use std::collections::BTreeMap;
+use std::path::Path;
+use std::rc::Rc;
+use veryl_cache::Store;
+use veryl_path::sim::{self, Verdict};
+
+const SRCS: [&str; 4] = ["/p/src/a.veryl", "/p/src/b.veryl", "/p/src/c.veryl", "/p/src/d.veryl"];
+const KEYS: [&str; 3] = ["key-A", "key-B", "key-C"];
+
+#[derive(Clone, Debug, Serialize, Deserialize, PartialEq)]
+enum Op {
+    Open { key: usize, try_: bool },
+    Put { src: usize, hash: u32, blob: Option<u32> },
+    SetDiag { src: usize, blob: u32 },
+    Keep { src: usize },
+    Invalidate { src: usize },
+    SetDeps { src: usize, deps: Vec<usize> },
+    SetTests { src: usize, tests: Vec<u32> },
+    Save,
+    Close,
+    /// keep() every previous entry then save(): the identical re-scan.
+    Rescan,
+    /// Second try_open on the same root while a store is alive.
+    SecondOpen { key: usize },
+    /// Read entry/load for a source mid-session.
+    Read { src: usize },
+}
+
+#[derive(Clone, Debug, Serialize, Deserialize, PartialEq)]
+enum Fault {
+    None,
+    /// Crash (unwind, temp file kept) at global gate number `at`; `prefix` tears a data gate.
+    Crash { at: usize, prefix: Option<u64> },
+    /// I/O error `errno` at global gate number `at`.
+    Io { at: usize, errno: i32 },
+}
+
+#[derive(Clone, Debug, Serialize, Deserialize)]
+struct Scenario {
+    ops: Vec<Op>,
+    fault: Fault,
+}
+
+fn blob_bytes(id: u32) -> Vec<u8> {
+    // Every written value is unique and self-describing; sizes vary, some empty-ish.
+    let n = 1 + (id as usize * 37) % 200;
+    let mut v = format!("blob#{id}:").into_bytes();
+    let mut x = id as u64;
+    while v.len() < n {
+        x = simcore::rng::splitmix(x);
+        v.push(x as u8);
+    }
+    v
+}
+
+#[derive(Clone, Debug, PartialEq, Default)]
+struct MEntry {
+    hash: String,
+    fragment: Option<u32>,
+    dependents: Vec<String>,
+    tests: Vec<String>,
+    diagnostics: Option<u32>,
+}
+
+#[derive(Clone, Debug, Default)]
+struct Model {
+    /// Durable manifest: (key, files); None until the first effective save.
+    disk: Option<(usize, BTreeMap<usize, MEntry>)>,
+    /// Session state while a store is open.
+    session: Option<Session>,
+}
+
+#[derive(Clone, Debug)]
+struct Session {
+    key: usize,
+    prev: BTreeMap<usize, MEntry>,
+    next: BTreeMap<usize, MEntry>,
+    on_disk_current: bool,
+    locked: bool,
+}
+
+struct GateLog {
+    n: usize,
+    fault: Fault,
+    fired: Option<String>,
+    kinds: Vec<(String, String)>,
+    io_failed_paths: Vec<String>,
+    /// Set while the harness itself reads the store to verify it: not a fault point.
+    checking: bool,
+}
+
+#[derive(Debug)]
+struct Outcome {
+    violation: Option<String>,
+    gates: usize,
+    gate_kinds: Vec<(String, String)>,
+    probes: Counters,
+    fault_fired: Option<String>,
+}
+
+thread_local!(static CHECK_LOG: RefCell<Option<Rc<RefCell<GateLog>>>> = const { RefCell::new(None) });
+
+fn check_entries(store: &Store, expect: &BTreeMap<usize, MEntry>, ctx: &str) -> Result<(), String> {
+    let log = CHECK_LOG.with(|x| x.borrow().clone());
+    if let Some(l) = &log {
+        l.borrow_mut().checking = true;
+    }
+    let r = check_entries_inner(store, expect, ctx);
+    if let Some(l) = &log {
+        l.borrow_mut().checking = false;
+    }
+    r
+}
+
+fn check_entries_inner(store: &Store, expect: &BTreeMap<usize, MEntry>, ctx: &str) -> Result<(), String> {
+    for (i, src) in SRCS.iter().enumerate() {
+        let got = store.entry(src);
+        match (got, expect.get(&i)) {
+            (None, None) => {}
+            (Some(g), Some(m)) => {
+                if g.hash != m.hash {
+                    return Err(format!("{ctx}: {src} hash {} != model {}", g.hash, m.hash));
+                }
+                if g.dependents != m.dependents {
+                    return Err(format!("{ctx}: {src} dependents {:?} != model {:?}", g.dependents, m.dependents));
+                }
+                if g.tests != m.tests {
+                    return Err(format!("{ctx}: {src} tests {:?} != model {:?}", g.tests, m.tests));
+                }
+                if g.fragment.is_some() != m.fragment.is_some() {
+                    return Err(format!("{ctx}: {src} fragment presence {:?} != model {:?}", g.fragment, m.fragment));
+                }
+                if g.diagnostics.is_some() != m.diagnostics.is_some() {
+                    return Err(format!("{ctx}: {src} diagnostics presence {:?} != model {:?}", g.diagnostics, m.diagnostics));
+                }
+                if let Some(b) = m.fragment {
+                    match store.load(g) {
+                        Some(bytes) if bytes == blob_bytes(b) => {}
+                        Some(_) => return Err(format!("{ctx}: {src} load returned other bytes than blob#{b}")),
+                        None => return Err(format!("{ctx}: {src} referenced fragment blob#{b} does not load (deleted or unreadable)")),
+                    }
+                }
+                if let Some(b) = m.diagnostics {
+                    match store.load_diagnostics(g) {
+                        Some(bytes) if bytes == blob_bytes(b) => {}
+                        Some(_) => return Err(format!("{ctx}: {src} load_diagnostics returned other bytes than blob#{b}")),
+                        None => return Err(format!("{ctx}: {src} referenced diagnostics blob#{b} does not load")),
+                    }
+                }
+            }
+            (g, m) => {
+                return Err(format!(
+                    "{ctx}: {src} entry present={} but model present={}",
+                    g.is_some(),
+                    m.is_some()
+                ));
+            }
+        }
+    }
+    Ok(())
+}
+
+fn run_scenario(sc: &Scenario) -> Outcome {
+    let scratch = Scratch::new("st");
+    let root = scratch.path.join("cache");
+    let log = Rc::new(RefCell::new(GateLog {
+        n: 0,
+        fault: sc.fault.clone(),
+        fired: None,
+        kinds: vec![],
+        io_failed_paths: vec![],
+        checking: false,
+    }));
+    CHECK_LOG.with(|x| *x.borrow_mut() = Some(log.clone()));
+    {
+        let log = log.clone();
+        sim::set_thread_handler(Some(Box::new(move |ev| {
+            let mut l = log.borrow_mut();
+            if l.checking {
+                return Verdict::Go;
+            }
+            let k = l.n;
+            l.n += 1;
+            l.kinds.push((ev.kind.clone(), ev.path.clone()));
+            match l.fault.clone() {
+                Fault::Crash { at, prefix } if at == k => {
+                    l.fired = Some(format!("crash@{}", ev.kind));
+                    match prefix {
+                        Some(n) if ev.kind.ends_with(".data") => {
+                            // 0, 1 literal; MAX/2 = half; MAX-1 = all but the last byte.
+                            let n = if n == u64::MAX / 2 {
+                                ev.len / 2
+                            } else if n == u64::MAX - 1 {
+                                ev.len.saturating_sub(1)
+                            } else {
+                                n.min(ev.len)
+                            };
+                            Verdict::CrashPrefix(n)
+                        }
+                        _ => Verdict::Crash,
+                    }
+                }
+                Fault::Io { at, errno }
+                    if at == k
+                        && matches!(
+                            ev.kind.as_str(),
+                            "aw.create" | "aw.data" | "aw.rename" | "lock.acq" | "lock.try" | "gc.remove"
+                        ) =>
+                {
+                    l.fired = Some(format!("io@{}", ev.kind));
+                    if ev.kind != "gc.remove" {
+                        l.io_failed_paths.push(ev.path.clone());
+                    }
+                    Verdict::Fail(errno)
+                }
+                _ => Verdict::Go,
+            }
+        })));
+    }
+
+    let mut model = Model::default();
+    let mut store: Option<Store> = None;
+    let mut probes = Counters::default();
+    let mut violation: Option<String> = None;
+    let io_mode = matches!(sc.fault, Fault::Io { .. });
+
+    let mut i = 0;
+    while i < sc.ops.len() && violation.is_none() {
+        let op = sc.ops[i].clone();
+        i += 1;
+        // The operation runs under catch_unwind: a simulated crash unwinds out of it.
+        let mut st = store.take();
+        let mut md = model.clone();
+        let root2 = root.clone();
+        let log2 = log.clone();
+        let res = std::panic::catch_unwind(std::panic::AssertUnwindSafe(|| {
+            let r = apply(&op, &mut st, &mut md, &root2, &log2, io_mode);
+            (st, md, r)
+        }));
+        match res {
+            Ok((st, md, r)) => {
+                store = st;
+                model = md;
+                match r {
+                    Ok(p) => probes.merge(&p),
+                    Err(e) => violation = Some(format!("op#{} {:?}: {e}", i - 1, op)),
+                }
+            }
+            Err(payload) => {
+                if payload.downcast_ref::<sim::SimCrash>().is_none() {
+                    let msg = payload
+                        .downcast_ref::<String>()
+                        .cloned()
+                        .or_else(|| payload.downcast_ref::<&str>().map(|s| s.to_string()))
+                        .unwrap_or_default();
+                    violation = Some(format!("op#{} {:?}: panic: {msg}", i - 1, op));
+                    break;
+                }
+                // The process died inside `op`; the store object went with it.
+                probes.inc("crash.fired");
+                let (kind, path) = log.borrow().kinds.last().cloned().unwrap_or_default();
+                let in_save = matches!(op, Op::Save | Op::Rescan);
+                let manifest_gate = path.ends_with("manifest.toml");
+                let session = model.session.take();
+                // Exactly which durable state must be visible after the crash.
+                if in_save && kind == "gc.remove" {
+                    // The rename happened: the new manifest is the saved state.
+                    if let Some(s) = session {
+                        let mut next = s.next.clone();
+                        if matches!(op, Op::Rescan) {
+                            for (k, e) in &s.prev {
+                                next.insert(*k, e.clone());
+                            }
+                        }
+                        model.disk = Some((s.key, next));
+                    }
+                    probes.inc("crash.in_gc");
+                } else if in_save && manifest_gate {
+                    probes.inc("crash.in_manifest_write");
+                } else if matches!(op, Op::Put { .. } | Op::SetDiag { .. }) {
+                    probes.inc("crash.in_blob_write");
+                } else {
+                    probes.inc("crash.elsewhere");
+                }
+                // Restart: reopen with the key of the durable manifest (or key 0).
+                let key = model.disk.as_ref().map(|d| d.0).unwrap_or(0);
+                let st = Store::try_open(&root, KEYS[key]);
+                match st {
+                    None => violation = Some(format!("after crash in op#{} {:?}: lock still held after process death", i - 1, op)),
+                    Some(st) => {
+                        let expect = model.disk.as_ref().map(|d| d.1.clone()).unwrap_or_default();
+                        if let Err(e) = check_entries(&st, &expect, &format!("after crash at gate {kind} in op#{} {:?}", i - 1, op)) {
+                            violation = Some(e);
+                        }
+                        drop(st);
+                    }
+                }
+                // Skip to the next Open.
+                while i < sc.ops.len() && !matches!(sc.ops[i], Op::Open { .. }) {
+                    i += 1;
+                }
+            }
+        }
+    }
+    drop(store);
+    // Faults stop here; gates of the final verification are not fault points.
+    let gates_in_ops = log.borrow().n;
+    log.borrow_mut().fault = Fault::None;
+    // Final reopen with every key: same key -> last saved state, other keys -> nothing.
+    if violation.is_none() {
+        for (k, key) in KEYS.iter().enumerate() {
+            let Some(st) = Store::try_open(&root, key) else {
+                violation = Some("final reopen: store locked although nobody holds it".into());
+                break;
+            };
+            let expect = match &model.disk {
+                Some((dk, files)) if *dk == k => files.clone(),
+                _ => BTreeMap::new(),
+            };
+            if let Err(e) = check_entries(&st, &expect, &format!("final reopen with {key}")) {
+                violation = Some(e);
+                break;
+            }
+        }
+    }
+    sim::set_thread_handler(None);
+    let l = log.borrow();
+    Outcome {
+        violation,
+        gates: gates_in_ops,
+        gate_kinds: l.kinds[..gates_in_ops].to_vec(),
+        probes,
+        fault_fired: l.fired.clone(),
+    }
+}
+
+fn apply(
+    op: &Op,
+    store: &mut Option<Store>,
+    model: &mut Model,
+    root: &Path,
+    log: &Rc<RefCell<GateLog>>,
+    io_mode: bool,
+) -> Result<Counters, String> {
+    let mut probes = Counters::default();
+    match op {
+        Op::Open { key, try_ } => {
+            if store.is_some() {
+                return Ok(probes);
+            }
+            let gates_before = log.borrow().io_failed_paths.len();
+            let st = if *try_ {
+                Store::try_open(root, KEYS[*key])
+            } else {
+                Some(Store::open(root, KEYS[*key]))
+            };
+            let lock_failed = log.borrow().io_failed_paths.len() > gates_before;
+            let Some(st) = st else {
+                if *try_ && lock_failed {
+                    probes.inc("try_open.unavailable_by_fault");
+                    return Ok(probes);
+                }
+                return Err("try_open returned None although no other store is alive".into());
+            };
+            let (prev, current) = match &model.disk {
+                Some((dk, files)) if dk == key => (files.clone(), true),
+                Some(_) => {
+                    probes.inc("open.key_mismatch_discards");
+                    (BTreeMap::new(), false)
+                }
+                None => (BTreeMap::new(), false),
+            };
+            check_entries(&st, &prev, &format!("open with {}", KEYS[*key]))?;
+            if current && !prev.is_empty() {
+                probes.inc("open.same_key_nonempty");
+            }
+            model.session = Some(Session {
+                key: *key,
+                prev,
+                next: BTreeMap::new(),
+                on_disk_current: current,
+                locked: !lock_failed,
+            });
+            *store = Some(st);
+        }
+        Op::SecondOpen { key } => {
+            let (Some(_), Some(s)) = (store.as_ref(), model.session.as_ref()) else {
+                return Ok(probes);
+            };
+            if !s.locked {
+                return Ok(probes);
+            }
+            if Store::try_open(root, KEYS[*key]).is_some() {
+                return Err("second try_open succeeded while the first store holds the lock".into());
+            }
+            probes.inc("second_open.refused");
+        }
+        Op::Put { src, hash, blob } => {
+            let (Some(st), Some(s)) = (store.as_mut(), model.session.as_mut()) else {
+                return Ok(probes);
+            };
+            let before = log.borrow().io_failed_paths.len();
+            st.put(SRCS[*src].to_string(), format!("h{hash}"), blob.map(blob_bytes).as_deref());
+            let failed = log.borrow().io_failed_paths.len() > before;
+            s.next.insert(
+                *src,
+                MEntry {
+                    hash: format!("h{hash}"),
+                    // A failed blob write degrades to "not cacheable".
+                    fragment: if failed { None } else { *blob },
+                    ..Default::default()
+                },
+            );
+            if failed {
+                probes.inc("put.blob_write_failed");
+            }
+        }
+        Op::SetDiag { src, blob } => {
+            let (Some(st), Some(s)) = (store.as_mut(), model.session.as_mut()) else {
+                return Ok(probes);
+            };
+            let before = log.borrow().io_failed_paths.len();
+            st.set_diagnostics(SRCS[*src], &blob_bytes(*blob));
+            let failed = log.borrow().io_failed_paths.len() > before;
+            if let Some(e) = s.next.get_mut(src)
+                && e.fragment.is_some()
+            {
+                e.diagnostics = if failed { None } else { Some(*blob) };
+                probes.inc("set_diag.applied");
+            }
+        }
+        Op::Keep { src } => {
+            let (Some(st), Some(s)) = (store.as_mut(), model.session.as_mut()) else {
+                return Ok(probes);
+            };
+            st.keep(SRCS[*src]);
+            if let Some(e) = s.prev.get(src) {
+                s.next.insert(*src, e.clone());
+                probes.inc("keep.hit");
+            }
+        }
+        Op::Invalidate { src } => {
+            let (Some(st), Some(s)) = (store.as_mut(), model.session.as_mut()) else {
+                return Ok(probes);
+            };
+            st.invalidate(SRCS[*src]);
+            if let Some(e) = s.next.get_mut(src) {
+                e.fragment = None;
+            }
+        }
+        Op::SetDeps { src, deps } => {
+            let (Some(st), Some(s)) = (store.as_mut(), model.session.as_mut()) else {
+                return Ok(probes);
+            };
+            let d: Vec<String> = deps.iter().map(|x| SRCS[*x].to_string()).collect();
+            st.set_dependents(SRCS[*src], d.clone());
+            if let Some(e) = s.next.get_mut(src) {
+                e.dependents = d;
+            }
+        }
+        Op::SetTests { src, tests } => {
+            let (Some(st), Some(s)) = (store.as_mut(), model.session.as_mut()) else {
+                return Ok(probes);
+            };
+            let t: Vec<String> = tests.iter().map(|x| format!("test_{x}")).collect();
+            st.set_tests(SRCS[*src], t.clone());
+            if let Some(e) = s.next.get_mut(src) {
+                e.tests = t;
+            }
+        }
+        Op::Save | Op::Rescan => {
+            let (Some(st), Some(s)) = (store.as_mut(), model.session.as_mut()) else {
+                return Ok(probes);
+            };
+            if matches!(op, Op::Rescan) {
+                for (i, src) in SRCS.iter().enumerate() {
+                    st.keep(src);
+                    if let Some(e) = s.prev.get(&i) {
+                        s.next.insert(i, e.clone());
+                    }
+                }
+            }
+            let gates_before = log.borrow().n;
+            let fails_before = log.borrow().io_failed_paths.len();
+            st.save();
+            let wrote = log.borrow().n > gates_before;
+            let failed = log.borrow().io_failed_paths.len() > fails_before;
+            let manifest_failed = failed
+                && log.borrow().io_failed_paths[fails_before..]
+                    .iter()
+                    .any(|p| p.ends_with("manifest.toml"));
+            if s.on_disk_current && s.next == s.prev {
+                // Identical re-scan: the write is skipped, the saved state is unchanged.
+                if wrote {
+                    probes.inc("save.identical_but_wrote");
+                } else {
+                    probes.inc("save.skipped_identical");
+                }
+                s.next.clear();
+            } else {
+                s.prev = std::mem::take(&mut s.next);
+                if manifest_failed {
+                    // The save did not happen; durable state is the old one.
+                    probes.inc("save.manifest_write_failed");
+                    if !io_mode {
+                        return Err("manifest write failed without an injected fault".into());
+                    }
+                } else {
+                    model.disk = Some((s.key, s.prev.clone()));
+                    s.on_disk_current = true;
+                    probes.inc("save.wrote");
+                    if log.borrow().kinds[gates_before..].iter().any(|(k, _)| k == "gc.remove") {
+                        probes.inc("save.gc_removed_blob");
+                    }
+                }
+            }
+            // In-memory view after save: entry() serves the new manifest.
+            check_entries(st, &s.prev, "after save (in-memory view)")?;
+            // Saving never deletes a blob the saved manifest references (on-disk check).
+            if let Some((_, files)) = &model.disk
+                && !manifest_failed
+            {
+                for (i, e) in files {
+                    if e.fragment.is_some() || e.diagnostics.is_some() {
+                        let g = st.entry(SRCS[*i]);
+                        if let Some(g) = g {
+                            for rel in g.fragment.iter().chain(g.diagnostics.iter()) {
+                                if !root.join(rel).exists() {
+                                    return Err(format!("after save: blob {rel} referenced by the saved manifest is missing on disk"));
+                                }
+                            }
+                        }
+                    }
+                }
+            }
+        }
+        Op::Close => {
+            if store.take().is_some() {
+                model.session = None;
+                probes.inc("close");
+            }
+        }
+        Op::Read { src } => {
+            let (Some(st), Some(s)) = (store.as_ref(), model.session.as_ref()) else {
+                return Ok(probes);
+            };
+            let mut one = BTreeMap::new();
+            if let Some(e) = s.prev.get(src) {
+                one.insert(*src, e.clone());
+            }
+            let got = st.entry(SRCS[*src]);
+            if got.is_some() != one.contains_key(src) {
+                return Err(format!("read {}: presence differs from model", SRCS[*src]));
+            }
+            if let (Some(g), Some(m)) = (got, one.get(src)) {
+                if g.hash != m.hash {
+                    return Err(format!("read {}: hash differs", SRCS[*src]));
+                }
+                if let Some(b) = m.fragment
+                    && st.load(g).as_deref() != Some(&blob_bytes(b)[..])
+                {
+                    return Err(format!("read {}: load differs from blob#{b}", SRCS[*src]));
+                }
+            }
+        }
+    }
+    Ok(probes)
+}
+
+fn gen_scenario(rng: &mut Rng, max_ops: usize) -> Vec<Op> {
+    let n = 4 + rng.below(max_ops - 3);
+    let nsrc = 1 + rng.below(SRCS.len());
+    let nkeys = 1 + rng.below(KEYS.len());
+    let mut next_blob = rng.below(1000) as u32 * 1000;
+    let mut recent: Vec<u32> = vec![];
+    let mut ops = vec![];
+    let mut open = false;
+    for _ in 0..n {
+        if !open {
+            ops.push(Op::Open {
+                key: if rng.chance(3, 4) { 0 } else { rng.below(nkeys) },
+                try_: rng.chance(1, 4),
+            });
+            open = true;
+            continue;
+        }
+        let r = rng.below(100);
+        let src = rng.below(nsrc);
+        let op = match r {
+            0..=27 => {
+                let blob = if rng.chance(1, 5) {
+                    None
+                } else if !recent.is_empty() && rng.chance(1, 4) {
+                    // Re-put an earlier value: content-addressed reuse / re-creation after GC.
+                    Some(*rng.pick(&recent))
+                } else {
+                    next_blob += 1;
+                    recent.push(next_blob);
+                    Some(next_blob)
+                };
+                Op::Put { src, hash: if rng.chance(1, 3) { 1 } else { rng.below(50) as u32 }, blob }
+            }
+            28..=37 => {
+                next_blob += 1;
+                Op::SetDiag { src, blob: next_blob }
+            }
+            38..=52 => Op::Keep { src },
+            53..=57 => Op::Invalidate { src },
+            58..=63 => Op::SetDeps { src, deps: (0..rng.below(3)).map(|_| rng.below(nsrc)).collect() },
+            64..=67 => Op::SetTests { src, tests: (0..rng.below(3)).map(|_| rng.below(5) as u32).collect() },
+            68..=82 => Op::Save,
+            83..=87 => Op::Rescan,
+            88..=93 => {
+                open = false;
+                Op::Close
+            }
+            94..=96 => Op::SecondOpen { key: rng.below(nkeys) },
+            _ => Op::Read { src },
+        };
+        ops.push(op);
+    }
+    if open && rng.chance(2, 3) {
+        ops.push(Op::Save);
+    }
+    ops
+}
+
+fn minimise(sc: &Scenario) -> Scenario {
+    let mut best = sc.clone();
+    let class = |o: &Outcome| o.violation.as_ref().map(|v| vclass(v));
+    let target = class(&run_scenario(&best));
+    if target.is_none() {
+        return best;
+    }
+    let mut changed = true;
+    while changed {
+        changed = false;
+        let mut i = 0;
+        while i < best.ops.len() {
+            let mut cand = best.clone();
+            cand.ops.remove(i);
+            // A fault index is a gate number; re-derive it by search when ops change.
+            let cands: Vec<Scenario> = match cand.fault.clone() {
+                Fault::None => vec![cand],
+                f => {
+                    let g = run_scenario(&Scenario { ops: cand.ops.clone(), fault: Fault::None }).gates;
+                    (0..g)
+                        .map(|at| Scenario {
+                            ops: cand.ops.clone(),
+                            fault: match &f {
+                                Fault::Crash { prefix, .. } => Fault::Crash { at, prefix: *prefix },
+                                Fault::Io { errno, .. } => Fault::Io { at, errno: *errno },
+                                Fault::None => Fault::None,
+                            },
+                        })
+                        .collect()
+                }
+            };
+            let mut found = false;
+            for c in cands {
+                let o = run_scenario(&c);
+                if o.violation.is_some() && class(&o) == target {
+                    best = c;
+                    found = true;
+                    changed = true;
+                    break;
+                }
+            }
+            if !found {
+                i += 1;
+            }
+        }
+    }
+    best
+}
+
+fn replay(path: &str) -> i32 {
+    let text = std::fs::read_to_string(path).expect("read replay file");
+    let v: serde_json::Value = serde_json::from_str(&text).expect("parse replay file");
+    let sc: Scenario = serde_json::from_value(v["scenario"].clone()).expect("scenario");
+    let o = run_scenario(&sc);
+    match o.violation {
+        Some(v) => {
+            println!("replayed: {v}");
+            println!("VIOLATION property=C29 replay={path}");
+            1
+        }
+        None => {
+            println!("replay did not reproduce a violation");
+            0
+        }
+    }
+}
+
+fn main() {
+    let args: Vec<String> = std::env::args().collect();
+    std::panic::set_hook(Box::new(|info| {
+        if info.payload().downcast_ref::<sim::SimCrash>().is_none() {
+            eprintln!("panic: {info}");
+        }
+    }));
+    if args.len() >= 3 && args[1] == "--replay" {
+        let code = replay(&args[2]);
+        simcore::fsutil::cleanup_scratch_root();
+        std::process::exit(code);
+    }
+    let tier = args.get(1).cloned().unwrap_or_else(simcore::evidence::tier);
+    let seed = verif_seed();
+    let start = std::time::Instant::now();
+    let (n_seq, max_ops, crash_enum_every, io_runs) = if tier == "thorough" {
+        (60_000usize, 18usize, 20usize, 60_000usize)
+    } else {
+        (6_000, 14, 20, 6_000)
+    };
+    println!("storesim C29 tier={tier} VERIF_SEED={seed} sequences={n_seq}");
+
+    struct Part {
+        evals: u64,
+        distinct: std::collections::BTreeSet<u64>,
+        probes: Counters,
+        gate_kinds: Counters,
+        violations: Vec<(Scenario, String)>,
+        samples: Vec<serde_json::Value>,
+        crash_points: u64,
+        io_points: u64,
+    }
+    let jobs = simcore::pool::workers();
+    let chunk = 200usize;
+    let nchunks = n_seq.div_ceil(chunk);
+    let parts = simcore::pool::par_map(nchunks, jobs, |c| {
+        let mut part = Part {
+            evals: 0,
+            distinct: Default::default(),
+            probes: Default::default(),
+            gate_kinds: Default::default(),
+            violations: vec![],
+            samples: vec![],
+            crash_points: 0,
+            io_points: 0,
+        };
+        for j in 0..chunk {
+            let idx = c * chunk + j;
+            if idx >= n_seq {
+                break;
+            }
+            let mut rng = Rng::new(mix(seed, "C29", idx as u64));
+            let ops = gen_scenario(&mut rng, max_ops);
+            let base = Scenario { ops: ops.clone(), fault: Fault::None };
+            let o = run_scenario(&base);
+            part.evals += 1;
+            part.probes.merge(&o.probes);
+            for (k, _) in &o.gate_kinds {
+                part.gate_kinds.inc(k);
+            }
+            let nontrivial = o.probes.get("save.wrote") > 0;
+            if nontrivial {
+                part.distinct.insert(simcore::fsutil::hash_u64(format!("{ops:?}").as_bytes()));
+            }
+            if idx < 3 {
+                part.samples.push(json!({"ops": format!("{ops:?}"), "gates": o.gates}));
+            }
+            if let Some(v) = o.violation {
+                part.violations.push((base, v));
+                continue;
+            }
+            // Crash enumeration: every gate of this sequence, for a subset of sequences.
+            if idx % crash_enum_every == 0 {
+                for at in 0..o.gates {
+                    let is_data = o.gate_kinds[at].0.ends_with(".data");
+                    let mut variants = vec![None];
+                    if is_data {
+                        variants.extend([Some(0u64), Some(1), Some(u64::MAX / 2), Some(u64::MAX - 1)]);
+                    }
+                    for prefix in variants {
+                        // Prefix values are resolved against the gate's len in the handler:
+                        // MAX/2 -> len/2, MAX-1 -> len-1 via min(); keep explicit smaller ones too.
+                        let prefix = prefix.map(|p| p);
+                        let sc = Scenario { ops: ops.clone(), fault: Fault::Crash { at, prefix } };
+                        let oc = run_scenario(&sc);
+                        part.evals += 1;
+                        part.crash_points += 1;
+                        part.probes.merge(&oc.probes);
+                        if let Some(f) = &oc.fault_fired {
+                            part.probes.inc(&format!("fault.{f}"));
+                        }
+                        if let Some(v) = oc.violation {
+                            part.violations.push((sc, v));
+                        }
+                    }
+                }
+            }
+            // I/O error at one seeded gate (separate configuration, relaxed model).
+            if idx < io_runs && o.gates > 0 {
+                let at = rng.below(o.gates);
+                let errno = *rng.pick(&[libc_enospc(), 5, 13]);
+                let sc = Scenario { ops: ops.clone(), fault: Fault::Io { at, errno } };
+                let oi = run_scenario(&sc);
+                part.evals += 1;
+                part.io_points += 1;
+                part.probes.merge(&oi.probes);
+                if let Some(f) = &oi.fault_fired {
+                    part.probes.inc(&format!("fault.{f}"));
+                }
+                if let Some(v) = oi.violation {
+                    part.violations.push((sc, v));
+                }
+            }
+        }
+        part
+    });
+
+    let mut evals = 0;
+    let mut distinct = std::collections::BTreeSet::new();
+    let mut probes = Counters::default();
+    let mut gate_kinds = Counters::default();
+    let mut violations = vec![];
+    let mut samples = vec![];
+    let mut crash_points = 0;
+    let mut io_points = 0;
+    for p in parts {
+        evals += p.evals;
+        distinct.extend(p.distinct);
+        probes.merge(&p.probes);
+        gate_kinds.merge(&p.gate_kinds);
+        violations.extend(p.violations);
+        samples.extend(p.samples);
+        crash_points += p.crash_points;
+        io_points += p.io_points;
+    }
+
+    // Determinism sample: the same scenarios twice give the same gate list and verdict.
+    let mut det_pairs = 0;
+    let mut det_fail = None;
+    for idx in 0..16u64 {
+        let mut rng = Rng::new(mix(seed, "C29", idx));
+        let ops = gen_scenario(&mut rng, max_ops);
+        let sc = Scenario { ops, fault: Fault::None };
+        let a = run_scenario(&sc);
+        let b = run_scenario(&sc);
+        let ka: Vec<String> = a.gate_kinds.iter().map(|(k, p)| format!("{k} {}", norm(p))).collect();
+        let kb: Vec<String> = b.gate_kinds.iter().map(|(k, p)| format!("{k} {}", norm(p))).collect();
+        // gc removal order follows readdir order, which is not part of the schedule: compare as multisets there.
+        let mut sa = ka.clone();
+        let mut sb = kb.clone();
+        sa.sort();
+        sb.sort();
+        if sa != sb || a.violation != b.violation {
+            det_fail = Some(idx);
+        }
+        det_pairs += 1;
+    }
+
+    let mut exit = 0;
+    let known = simcore::evidence::load_known("C29");
+    let mut reported = std::collections::BTreeSet::new();
+    let mut nviol = 0;
+    for (sc, v) in violations.iter().take(20) {
+        let class: String = vclass(v);
+        if let Some(k) = known.iter().find(|k| k.status == "known" && v.contains(&k.key)) {
+            if reported.insert(k.key.clone()) {
+                println!("KNOWN-FINDING: property=C29 {}", k.what);
+            }
+            continue;
+        }
+        if !reported.insert(class.clone()) {
+            continue;
+        }
+        let min = minimise(sc);
+        let o = run_scenario(&min);
+        let Some(v2) = o.violation else {
+            eprintln!("harness error: minimised scenario does not reproduce ({v})");
+            exit = 2;
+            continue;
+        };
+        let name = format!("{}-{}", seed, nviol);
+        let path = simcore::evidence::write_replay("C29", &name, &json!({"property":"C29","violation": v2, "scenario": min, "seed": seed}));
+        println!("violation: {v2}");
+        println!("VIOLATION property=C29 replay={}", path.display());
+        nviol += 1;
+        exit = 1;
+    }
+    if let Some(i) = det_fail {
+        eprintln!("harness error: determinism self-check failed on run {i}");
+        exit = exit.max(2);
+    }
+    // Reach probes: a probe at zero is a harness error, not a pass.
+    for p in ["save.wrote", "save.skipped_identical", "save.gc_removed_blob", "open.key_mismatch_discards", "second_open.refused", "keep.hit", "crash.in_gc", "crash.in_manifest_write", "crash.in_blob_write"] {
+        if probes.get(p) == 0 {
+            eprintln!("harness error: reach probe {p} stayed at zero");
+            exit = exit.max(2);
+        }
+    }
+    let wall = start.elapsed().as_secs_f64();
+    let mut extra = serde_json::Map::new();
+    extra.insert("probes_and_faults_fired".into(), probes.to_json());
+    extra.insert("gate_kinds_seen".into(), gate_kinds.to_json());
+    extra.insert("crash_points_enumerated".into(), json!(crash_points));
+    extra.insert("io_error_runs".into(), json!(io_points));
+    extra.insert("runs_per_hour".into(), json!((evals as f64 / wall * 3600.0) as u64));
+    extra.insert("determinism_pairs_checked".into(), json!(det_pairs));
+    extra.insert("components".into(), json!({"real": ["veryl_cache::Store (open/try_open/put/keep/invalidate/set_*/save/gc/lock)", "veryl_path::atomic_write", "local filesystem", "kernel flock"], "stub": ["process death is an unwinding panic out of the operation with the temp file kept; the store object is dropped (lock released) as at process exit"]}));
+    extra.insert("simulated_time".into(), json!("not applicable: the store has no clock"));
+    Evidence {
+        property_id: "C29".into(),
+        tier: tier.clone(),
+        seed,
+        level: "exploration".into(),
+        evaluations: evals,
+        distinct_nontrivial: distinct.len() as u64,
+        rule: "seeded operation sequences (<= 14/18 ops, <= 4 sources, <= 3 keys, unique blob values) over the real Store, each checked against the sequential model at every open/save/read and at a final reopen with every key; for every 20th sequence every gate is additionally a crash point (data gates also torn at prefix 0,1,len/2,len-1), and each sequence gets one seeded I/O error run. distinct_nontrivial = distinct operation sequences (hash of the op list) in which at least one save really wrote a manifest".into(),
+        samples,
+        extra,
+        assumptions: vec![
+            "crash = unwinding out of the operation at a gate, temp file kept; no power-loss reordering of completed renames (the property is about process death, not fsync)".into(),
+            "gates exist only at the repository's own I/O helpers (atomic_write, blob read/exists, gc remove, lock)".into(),
+        ],
+        wall_s: wall,
+        violations: nviol,
+    }
+    .write();
+    println!("C29: evaluations={evals} distinct={} crash_points={crash_points} io_runs={io_points} violations={nviol} wall={wall:.1}s", distinct.len());
+    simcore::fsutil::cleanup_scratch_root();
+    std::process::exit(exit);
+}
+
+/// Violation class: the message without operation numbers and values.
+fn vclass(v: &str) -> String {
+    let tail = v.splitn(2, "}: ").last().unwrap_or(v);
+    let tail = tail.splitn(2, ": ").last().unwrap_or(tail);
+    tail.chars().filter(|c| !c.is_ascii_digit()).take(60).collect()
+}
+
+fn norm(p: &str) -> String {
+    // temp names and scratch roots vary between runs
+    let p = p.rsplit("/cache/").next().unwrap_or(p);
+    p.to_string()
+}
+
+fn libc_enospc() -> i32 {
+    28
+}
